@@ -4,19 +4,37 @@
 import json, os, sys
 V = os.path.dirname(os.path.dirname(os.path.abspath(__file__)))
 sys.path.insert(0, os.path.join(V, "lib"))
+CONT = "Coq invariants over every event list accepted by the container/heap-manager acceptor (Container.step) + acceptance of the hooked library's event traces (sequential, perturbed, fault-injected scenarios) + executable monitor on the implementation's own trace"
 CLAIMED = {
- "C09": ("Coq theorems over the bar state machine (every operation, every int64 argument, every history) + differential correspondence of the extracted model against the library on seeded operation scripts",
-         "Theorems in coq/Props/C09.v quantify over all states/arguments/histories of the model BarState.v; the model is tied to bar.go by running both on the same scripts (3 container modes) and comparing Current/Completed/Aborted/Statistics after every step.",
-         "7 (C09), 2, 6"),
+ "C03": (CONT, "Acceptor checks every frame's content against the model (rows carry the bar's snapshot at render time); monitor: last frame shows every remaining bar in its final state, dropped bars absent, no output after Wait. Theorems on the final-state content are in Props/C03.v; known finding D9 (cancelled bar drawn running).", "7 (C03), 8 (D9)"),
+ "C04": (CONT, "Line-level terminal replay of every frame (cursor-up = live rows, text above rows, nothing before the delay ends) + acceptor's exact frame prediction; the terminal path (pty) is the thorough tier's sweep.", "7 (C04), 8 (D6)"),
+ "C05": (CONT, "Theorems Props/C05.v: a bar is in exactly one place or gone for good (NoDup over heap/queue/pushes/popped/parked/retired) for every accepted trace; a frame's bars are the heap at that cycle's iteration; requests are received in the order sent. Monitor: no bar twice, none vanishing and returning, added-before-cycle bars present.", "7 (C05), 8 (D5)"),
+ "C06": (CONT, "Theorems Props/C06.v: pops of a clean cycle are in non-increasing priority, flush order = pop order, immediate/lazy fix semantics, every iteration restores order. Monitor on HM_POP priorities and row order.", "7 (C06)"),
  "C07": ("Coq theorems (termination of the fill loops for every component width incl. zero; exact width of the bar body; Format reports its true width for every wrapper tree; truncation; row width <= terminal width for every decorator list) + differential correspondence of the extracted model on direct Fill calls and whole rows + width/UTF-8/termination monitor",
          "Theorems in coq/Props/C07.v over Filler.v/Decor.v for all widths, styles and int64 progress values; tie: 2500+ Fill calls and rows per quick run classified rune by rune and measured with go-runewidth.",
          "7 (C07), 8 (D2)"),
  "C08": ("Coq theorems through Flocq's binary64 semantics (zero, full, range, monotone in current for all int64 values and widths < 2^31, refill <= filled, segments add up) + differential correspondence + exact-arithmetic monitor of the filled cells",
          "Theorems in coq/Props/C08.v over Percent.v (float64 product and quotient, math.Round) for every int64 total/current; the nearest-cell error bound is monitored, not proved (stated as partial).",
          "7 (C08), 8 (D3)"),
+ "C09": ("Coq theorems over the bar state machine (every operation, every int64 argument, every history) + differential correspondence of the extracted model against the library on seeded operation scripts",
+         "Theorems in coq/Props/C09.v quantify over all states/arguments/histories of the model BarState.v; the model is tied to bar.go by running both on the same scripts (3 container modes) and comparing Current/Completed/Aborted/Statistics after every step.",
+         "7 (C09), 2, 6"),
  "C11": ("Coq theorems (exclusivity in every state; stability by induction over event lists; exactly-one after exit) + differential correspondence + executable monitor on the implementation's own observations",
          "Theorems in coq/Props/C11.v; the same bar-family correspondence projected to the two flags; the monitor (never both, stable under non-decreasing updates, exactly one after exit) runs on what the real getters returned.",
          "7 (C11), 8 (D1)"),
+ "C12": ("Coq theorems on the width rendezvous as a transition system (never stuck, 2 steps per channel, common column width = maximum need) for every layout and interleaving + trace monitor on the library's width-exchange events",
+         "Props/C12.v over Sync.v for any number of bars/decorators; monitor checks each cycle's columns (membership by side and ordinal, distributed maximum, each member's received width, each decorator's needed width incl. W and extra space) on hooked traces with 0-3 synchronised decorators per side under perturbation.", "7 (C12)"),
+ "C13": (CONT, "Acceptor predicts the text items of every frame (accepted writes in order, above rows); monitor: every accepted write emitted once, in order, above rows, before Wait returns, late Write = (0, ErrDone).", "7 (C13)"),
+ "C14": (CONT, "Monitor on traces with cancel/Shutdown at every script position and under perturbation: every bar stopped and exactly one of completed/aborted, each shutdown listener (0-4 wrappers deep, also when it is a moving-average decorator) called once, notifier delivers once; acceptor checks BAR_EXIT/FINAL/NOTIFY against the model.", "7 (C14)"),
+ "C15": ("fault injection at k-th Fill / extender call / output Write on hooked scenarios + monitor (error reported once, no frame afterwards, Wait returns, no hang, no leak); width-rendezvous theorems (Sync.v) for the mid-sync case",
+         "Monitor over the faults family (half perturbed); the defect found (bars stranded mid width-sync) is fixed in /repo; theorems are those of C12 plus the container invariants.", "7 (C15), 8 (D8)"),
+ "C16": (CONT, "Leak probe after every scenario of the frames, sched and faults families (goroutines with a library frame after a settle period) + skeleton obligations regenerated from the source (translator).", "7 (C16)"),
+ "C17": (CONT, "Monitor: successor never shown with its predecessor, shown in the cycle after the predecessor's last frame with its priority; acceptor models the queue map; the late / second successor histories are a known finding replayed as directed witnesses.", "7 (C17), 8 (D7)"),
+ "C18": (CONT, "Monitor replays the output on a line-level terminal: every popped bar on screen exactly once, final, above live bars, in finishing order; acceptor checks popCount / pop priorities.", "7 (C18)"),
+ "C19": ("Coq theorems over the proxy model (transparency, Close forwarding, fast path iff, bytes accounted = capped sum for every chunking, every sample delivered) + differential correspondence on scripted readers/writers + independent monitor",
+         "Props/C19.v; 1500 scripted cases per quick run over all 16 shapes of wrapped value x ewma depth x total class.", "7 (C19)"),
+ "C20": ("Coq theorems (largest fitting unit, printed digits = nearest decimal of the float, finite quotient for every int64, h/m/s exact below 60 h, estimators conserve time, positive samples always delivered) + differential correspondence with exact string prediction",
+         "Props/C20.v over SizeFmt.v (Flocq binary64); the extracted model predicts the exact output string for f/d/s/v verbs and the exact float handed to the moving average; other verbs are checked to read back.", "7 (C20)"),
 }
 NOT_YET = {}
 props = [json.loads(l) for l in open(os.path.join(V, "properties.jsonl"))]
